@@ -15,12 +15,17 @@ package main
 // a drift signature, never a violation), then runs format.Source and judges the property asked for.
 
 import (
+	"bufio"
 	"bytes"
+	"encoding/json"
 	"fmt"
 	"os"
+	"os/exec"
+	"regexp"
 	"runtime"
 	"sort"
 	"strings"
+	"sync"
 
 	"github.com/goplus/xgo/ast"
 	"github.com/goplus/xgo/format"
@@ -692,6 +697,11 @@ func layoutKey(c *Case) string {
 	return b.String()
 }
 
+// runFmt is the SUPERVISOR: the code under test can end the process (printer/nodes.go expr1 calls log.Fatalf on
+// a node it does not expect), so the cases are judged by worker subprocesses, one chunk each, sequentially
+// inside a worker.  A worker that dies has died on the case after its last result: that case gets the
+// verdict "fatal-exit" (C19: the formatter does not return on a valid source; C20/C21: outside their domain)
+// and a fresh worker takes the rest of the chunk.
 func runFmt(which string) {
 	switch which {
 	case "c19", "c20", "c21":
@@ -699,23 +709,32 @@ func runFmt(which string) {
 		fmt.Fprintln(os.Stderr, "unknown property", which)
 		os.Exit(3)
 	}
-	cases := hlib.ReadAllCases[Case]()
-	out := make([]hlib.Result, len(cases))
-	w := runtime.NumCPU()
-	if w > 8 {
-		w = 8
+	if os.Getenv("FMTH_WORKER") != "" {
+		runFmtWorker(which)
+		return
 	}
-	hlib.Parallel(len(cases), w, func(i int) {
-		out[i] = checkCase(which, i, &cases[i])
-	})
+	var lines [][]byte
+	sc := bufio.NewScanner(os.Stdin)
+	sc.Buffer(make([]byte, 1<<20), 1<<28)
+	for sc.Scan() {
+		if len(sc.Bytes()) > 0 {
+			lines = append(lines, append([]byte(nil), sc.Bytes()...))
+		}
+	}
+	out := superviseChunks(which, "fmt", lines)
+	emitWithDrift(out)
+	hlib.EmitRaw(map[string]any{"v": "summary", "model_cases": len(lines)})
+}
+
+// emitWithDrift writes the results; model/code mismatches (skips) are summarised as one drift line per signature.
+func emitWithDrift(out []hlib.Result) {
 	skips := map[string]int{}
 	for _, r := range out {
-		if r.V == "skip" {
+		if r.V == "skip" && r.Sig != "" {
 			skips[r.Sig]++
 		}
 		hlib.Emit(r)
 	}
-	// model/code mismatches are reported as drift lines (one per signature) so that they show up in the evidence
 	var keys []string
 	for k := range skips {
 		keys = append(keys, k)
@@ -729,5 +748,150 @@ func runFmt(which string) {
 			}
 		}
 	}
-	hlib.EmitRaw(map[string]any{"v": "summary", "model_cases": len(cases)})
+}
+
+// superviseChunks runs `fmth <mode> <which>` workers over chunks of input lines; line i gets result index i.
+func superviseChunks(which, mode string, lines [][]byte, extra ...string) []hlib.Result {
+	n := len(lines)
+	out := make([]hlib.Result, n)
+	have := make([]bool, n)
+	type chunk struct{ lo, hi int }
+	var queue []chunk
+	const size = 400
+	for i := 0; i < n; i += size {
+		e := i + size
+		if e > n {
+			e = n
+		}
+		queue = append(queue, chunk{i, e})
+	}
+	w := runtime.NumCPU()
+	if w > 8 {
+		w = 8
+	}
+	var mu sync.Mutex
+	next := func() (chunk, bool) {
+		mu.Lock()
+		defer mu.Unlock()
+		if len(queue) == 0 {
+			return chunk{}, false
+		}
+		c := queue[0]
+		queue = queue[1:]
+		return c, true
+	}
+	self, _ := os.Executable()
+	var failed []string
+	var wg sync.WaitGroup
+	for k := 0; k < w; k++ {
+		wg.Add(1)
+		go func() {
+			defer wg.Done()
+			for {
+				c, ok := next()
+				if !ok {
+					return
+				}
+				lo := c.lo
+				for lo < c.hi {
+					cmd := exec.Command(self, append([]string{mode, which}, extra...)...)
+					cmd.Env = append(os.Environ(), "FMTH_WORKER=1", fmt.Sprintf("FMTH_BASE=%d", lo))
+					var in bytes.Buffer
+					for _, l := range lines[lo:c.hi] {
+						in.Write(l)
+						in.WriteByte('\n')
+					}
+					cmd.Stdin = &in
+					var errb bytes.Buffer
+					cmd.Stderr = &errb
+					stdout, _ := cmd.StdoutPipe()
+					if err := cmd.Start(); err != nil {
+						mu.Lock()
+						failed = append(failed, err.Error())
+						mu.Unlock()
+						return
+					}
+					last := lo - 1
+					rs := bufio.NewScanner(stdout)
+					rs.Buffer(make([]byte, 1<<20), 1<<28)
+					for rs.Scan() {
+						var r hlib.Result
+						if json.Unmarshal(rs.Bytes(), &r) != nil {
+							continue
+						}
+						if r.Idx >= lo && r.Idx < c.hi {
+							out[r.Idx], have[r.Idx] = r, true
+							if r.Idx > last {
+								last = r.Idx
+							}
+						}
+					}
+					err := cmd.Wait()
+					if err == nil && last == c.hi-1 {
+						break
+					}
+					if ee, ok := err.(*exec.ExitError); ok && (ee.ExitCode() == 3 || ee.ExitCode() == 4) {
+						// the harness itself gave up (usage / undecodable case), not the code under test
+						mu.Lock()
+						failed = append(failed, "worker: "+lastLine(errb.String()))
+						mu.Unlock()
+						return
+					}
+					// the worker ended early: the case after its last result ended the process
+					off := last + 1
+					if off >= c.hi {
+						break
+					}
+					msg := lastLine(errb.String())
+					r := hlib.Result{Idx: off, Input: map[string]any{"case": clip(string(lines[off]), 300)}}
+					if which == "c19" {
+						r.V, r.Sig = "viol", "fatal-exit:"+fatalClass(msg)
+						r.Detail = "the formatter ended the process instead of returning (" + msg + ")"
+					} else {
+						r.V, r.Sig, r.Detail = "skip", "format-fatal-exit", "the formatter ended the process (C19's business): "+msg
+					}
+					out[off], have[off] = r, true
+					lo = off + 1
+				}
+			}
+		}()
+	}
+	wg.Wait()
+	if len(failed) > 0 {
+		fmt.Fprintln(os.Stderr, "cannot run workers:", failed[0])
+		os.Exit(4)
+	}
+	for i := range have {
+		if !have[i] {
+			fmt.Fprintf(os.Stderr, "no result for case %d\n", i)
+			os.Exit(4)
+		}
+	}
+	return out
+}
+
+func lastLine(s string) string {
+	l := strings.Split(strings.TrimSpace(s), "\n")
+	return clip(l[len(l)-1], 300)
+}
+
+var reStamp = regexp.MustCompile(`^\d{4}/\d{2}/\d{2} \d{2}:\d{2}:\d{2} `)
+
+// fatalClass: the message of the fatal log line without its time stamp (it names the unexpected node type)
+func fatalClass(msg string) string {
+	m := reStamp.ReplaceAllString(msg, "")
+	if strings.HasPrefix(m, "panic:") || strings.HasPrefix(m, "fatal error:") || strings.Contains(m, "goroutine") {
+		return "crash"
+	}
+	return strings.TrimSpace(m)
+}
+
+// runFmtWorker judges the cases of one chunk one after the other, flushing every result.
+func runFmtWorker(which string) {
+	base := 0
+	fmt.Sscanf(os.Getenv("FMTH_BASE"), "%d", &base)
+	hlib.ForEachCase(func(i int, c *Case) {
+		hlib.Emit(checkCase(which, base+i, c))
+		hlib.Flush()
+	})
 }
